@@ -79,6 +79,15 @@ func (g *generator) buildDirtyMethods() error {
 	return nil
 }
 
+// markAllDirty schedules every method for a rebuild. It is used when the
+// signature of a generated method changes, because any other method may
+// already contain a call to it.
+func (g *generator) markAllDirty() {
+	for _, m := range g.lookup.GetAll() {
+		m.Dirty = true
+	}
+}
+
 func (g *generator) anyDirty() bool {
 	for _, m := range g.getGenMethods() {
 		if m.Dirty {
@@ -345,6 +354,8 @@ func (g *generator) ReturnError(ctx *builder.MethodContext, errPath builder.Erro
 			if !check.ReturnError {
 				check.ReturnError = true
 				check.Dirty = true
+				// methods outside of the origin path may already call this method
+				g.markAllDirty()
 			}
 		}
 	}
@@ -380,6 +391,8 @@ func (g *generator) requireContext(ctx *builder.MethodContext, need *xtype.Type)
 			Type: need,
 		})
 		check.Dirty = true
+		// methods outside of the origin path may already call this method
+		g.markAllDirty()
 	}
 	return true
 }
